@@ -70,6 +70,11 @@ pub enum FClass {
     AndEmpty,
     OrEmpty,
     NotNone,
+    /// composite nodes whose children carry no predicate: OR[{}], AND[{}], NOT({}), OR[{}, g=0]
+    OrOfUntyped,
+    AndOfUntyped,
+    NotOfUntyped,
+    OrMixedUntyped,
     Deep(u16),
     Wide(u16),
     BigString,
@@ -241,6 +246,10 @@ fn filter_of(f: FClass) -> Option<pb::MetadataFilter> {
         FClass::AndEmpty => pb::MetadataFilter { filter_type: Some(FT::AndFilter(pb::AndFilter { filters: vec![] })) },
         FClass::OrEmpty => pb::MetadataFilter { filter_type: Some(FT::OrFilter(pb::OrFilter { filters: vec![] })) },
         FClass::NotNone => pb::MetadataFilter { filter_type: Some(FT::NotFilter(Box::new(pb::NotFilter { filter: None }))) },
+        FClass::OrOfUntyped => pb::MetadataFilter { filter_type: Some(FT::OrFilter(pb::OrFilter { filters: vec![pb::MetadataFilter { filter_type: None }] })) },
+        FClass::AndOfUntyped => pb::MetadataFilter { filter_type: Some(FT::AndFilter(pb::AndFilter { filters: vec![pb::MetadataFilter { filter_type: None }, pb::MetadataFilter { filter_type: None }] })) },
+        FClass::NotOfUntyped => pb::MetadataFilter { filter_type: Some(FT::NotFilter(Box::new(pb::NotFilter { filter: Some(Box::new(pb::MetadataFilter { filter_type: None })) }))) },
+        FClass::OrMixedUntyped => pb::MetadataFilter { filter_type: Some(FT::OrFilter(pb::OrFilter { filters: vec![pb::MetadataFilter { filter_type: None }, exact("g", "0")] })) },
         FClass::Deep(n) => {
             let mut cur = exact("g", "0");
             for _ in 0..n {
@@ -341,7 +350,7 @@ fn gen_meta(t: &mut Tape) -> MetaClass {
 }
 
 fn gen_f(t: &mut Tape) -> FClass {
-    match t.weighted(&[10, 6, 1, 1, 1, 1, 1, 1, 3, 1, 1]) {
+    match t.weighted(&[10, 6, 1, 1, 1, 1, 1, 1, 3, 1, 1, 1, 1, 1, 1]) {
         0 => FClass::None,
         1 => FClass::Valid(t.below(2) as u8),
         2 => FClass::EmptyOneof,
@@ -352,7 +361,11 @@ fn gen_f(t: &mut Tape) -> FClass {
         7 => FClass::NotNone,
         8 => FClass::Deep(t.pick(&[8u16, 31, 32, 33, 64, 99, 100, 101, 500, 3000])),
         9 => FClass::Wide(t.pick(&[100u16, 5000, 40_000])),
-        _ => FClass::BigString,
+        10 => FClass::BigString,
+        11 => FClass::OrOfUntyped,
+        12 => FClass::AndOfUntyped,
+        13 => FClass::NotOfUntyped,
+        _ => FClass::OrMixedUntyped,
     }
 }
 
@@ -836,6 +849,9 @@ impl Prop for C15 {
                     }
                     let first_refuse = list.iter().position(|x| sreq_cls(x) == Cls::Refuse);
                     let first_not_valid = list.iter().position(|x| sreq_cls(x) != Cls::Valid);
+                    if end.is_none() && oks.len() < n {
+                        return Err(Failure::new("no_answer", format!("{}: the response stream ended with OK status after {} of {} responses: {} requests received neither a result nor a status", what, oks.len(), n, n - oks.len())).with_sig(json!({"kind": "no_answer", "rpc": "BulkSearch"})));
+                    }
                     if oks.len() > n {
                         return Err(Failure::new("stream_accounting", format!("{}: {} requests, {} responses", what, n, oks.len())).with_sig(sigk("stream_accounting", "BulkSearch")));
                     }
